@@ -1,5 +1,5 @@
 import Driver.Loop
-import SquidModel.SBuf.Ops
+import SquidModel.SBuf.Alloc
 open SquidModel SquidModel.SBuf
 
 /-!
@@ -8,11 +8,6 @@ Line driver of the SBuf model.  Input and output formats are those of harness/c4
 When the model reaches `ub` the rest of the line is the single token `ub`.
 -/
 namespace Driver.C48
-
-def classAlloc (n : Nat) : Nat :=
-  match Gen.SBufConsts.classes.find? (fun p => n ≤ p.1) with
-  | some p => p.2
-  | none => n
 
 def num? (s : String) : Option Nat :=
   if s.isEmpty || s.length > 12 || !s.all Char.isDigit then none else s.toNat?
@@ -138,7 +133,7 @@ def handle (line : String) : String :=
     match num? ks with
     | some k =>
       if k < 1 || k > 6 || (mode != "x" && mode != "c") then "bad-op" else
-      let c : Cfg := ⟨if mode == "c" then classAlloc else id⟩
+      let c : Cfg := if mode == "c" then classAlloc else exactAlloc
       match toks.mapM (parseOp k) with
       | some ops =>
         if ops.isEmpty then "empty" else
